@@ -1,0 +1,239 @@
+//go:build verif
+// +build verif
+
+package websocket
+
+// Machine-checked contracts for the WebSocket transport (comment-only file).
+// Frame = one binary message: 4-byte big-endian index (bit 31 = error) + body.
+
+//@ func makeHeader
+//@   prop C12 C09
+//@   nopanic
+//@   modifies nothing
+//@   ensures [index_big_endian] header[0] == byteof(index, 3) && header[1] == byteof(index, 2) && header[2] == byteof(index, 1) && header[3] == byteof(index, 0)
+
+//@ func parseHeader
+//@   prop C12 C09
+//@   nopanic
+//@   modifies nothing
+//@   requires len(header) == 4
+//@   ensures [index_decoded_without_error_bit] index == (header[0] % 128) * 16777216 + header[1] * 65536 + header[2] * 256 + header[3]
+//@   ensures [error_bit] ok <==> header[0] < 128
+
+//@ lemma header_round_trip C12 C09
+//@   (declare-const index Int) (declare-const e Int)
+//@   (declare-const h0 Int) (declare-const h1 Int) (declare-const h2 Int) (declare-const h3 Int)
+//@   (assert (and (<= 0 index) (< index 2147483648) (or (= e 0) (= e 1))))
+//@   (define-fun idx () Int (+ index (* e 2147483648)))
+//@   (assert (and (= h0 (byteof idx 3)) (= h1 (byteof idx 2)) (= h2 (byteof idx 1)) (= h3 (byteof idx 0))))
+//@   (assert (not (and (= (+ (* (mod h0 128) 16777216) (* h1 65536) (* h2 256) h3) index) (= (< h0 128) (= e 0)))))
+
+// ---- server side: dispatch preconditions (checked at the go statement / pool submission) ----
+//   C13  the body is within Service.MaxRequestLength
+//   C12  the body is exactly the rest of the message just read, behind its 4-byte index header,
+//        and the index is the one that header carries
+
+//@ func (*Handler).run
+//@   prop C12 C13 C11 C09
+//@   nopanic
+//@   havoc
+//@   modifies @HANDLE, ghost.chansent[queue], ghost.chanlen[*], ghost.chanrecv[*]
+//@   requires h != nil && h.Service != nil
+//@   requires [request_within_limit] len(body) <= h.Service.MaxRequestLength
+//@   requires [body_is_the_rest_of_the_message] len(ghost.ws_cur) >= 4 && arr(body) == arr(ghost.ws_cur) &&
+//@       off(body) == off(ghost.ws_cur) + 4 && len(body) == len(ghost.ws_cur) - 4
+//@   requires [index_is_the_header_index] index == (ghost.ws_cur[0] % 128) * 16777216 + ghost.ws_cur[1] * 65536 + ghost.ws_cur[2] * 256 + ghost.ws_cur[3]
+//@   stable h.Handler.Service
+//@   ensures [handles_exactly_this_request_once] ghost.handled == old(ghost.handled) + 1 && same(ghost.handled_req, body)
+//@   ensures [answers_at_most_once] ghost.chansent[queue] <= old(ghost.chansent[queue]) + 1
+//@   ensures [answers_under_the_request_index] ghost.chansent[queue] == old(ghost.chansent[queue]) + 1 ==> lastsent(queue).Index == index
+//@   ensures [panic_becomes_error_response] ghost.chansent[queue] == old(ghost.chansent[queue]) + 1 && ghost.npanic_handle > old(ghost.npanic_handle) ==>
+//@       lastsent(queue).Error != nil
+//@   ensures [response_is_the_service_response] ghost.chansent[queue] == old(ghost.chansent[queue]) + 1 && ghost.npanic_handle == old(ghost.npanic_handle) ==>
+//@       same(lastsent(queue).Body, ghost.handle_resp) && same(lastsent(queue).Error, ghost.handle_err)
+
+//@ func (*Handler).task
+//@   prop C12 C13 C09
+//@   nopanic
+//@   modifies nothing
+//@   requires h != nil && h.Service != nil
+//@   requires [request_within_limit] len(body) <= h.Service.MaxRequestLength
+//@   requires [body_is_the_rest_of_the_message] len(ghost.ws_cur) >= 4 && arr(body) == arr(ghost.ws_cur) &&
+//@       off(body) == off(ghost.ws_cur) + 4 && len(body) == len(ghost.ws_cur) - 4
+//@   requires [index_is_the_header_index] index == (ghost.ws_cur[0] % 128) * 16777216 + ghost.ws_cur[1] * 65536 + ghost.ws_cur[2] * 256 + ghost.ws_cur[3]
+
+//@ func (*Handler).sendResponse
+//@   prop C12 C13 C09
+//@   nopanic
+//@   modifies ghost.chansent[queue], ghost.chanlen[*], ghost.chanrecv[*]
+//@   ensures [at_most_one_message] ghost.chansent[queue] <= old(ghost.chansent[queue]) + 1
+//@   ensures [message_is_the_arguments] ghost.chansent[queue] == old(ghost.chansent[queue]) + 1 ==>
+//@       lastsent(queue).Index == index && same(lastsent(queue).Body, body) && same(lastsent(queue).Error, err)
+
+//@ type ConnCallback(c)
+//@   nopanic
+//@   havoc
+//@ type ConnMapCallback(c) (r)
+//@   nopanic
+//@   havoc
+//@ type ErrorCallback(c, err)
+//@   nopanic
+//@   havoc
+//@ type Callback()
+//@   nopanic
+//@   havoc
+//@ fieldfunc Handler.OnAccept ConnMapCallback
+//@ fieldfunc Handler.OnClose ConnCallback
+//@ fieldfunc Handler.OnError ErrorCallback
+//@ fieldfunc conn.onClose ConnCallback
+
+//@ func (*Handler).receive
+//@   prop C12 C13 C11 C09
+//@   nopanic
+//@   havoc
+//@   modifies ghost.ws_cur, ghost.chansent[*], ghost.chanlen[*], ghost.chanrecv[*], ghost.spawned, ghost.dict_has[*], ghost.dict_int[*]
+//@   requires h != nil && h.Service != nil && ref(queue) != ref(errChan)
+//@   stable h.Handler.Service, h.Handler.Service.MaxRequestLength
+//@   loop 1 invariant ghost.chansent[queue] == old(ghost.chansent[queue])
+//@   ensures [only_refusals_are_answered_here] ghost.chansent[queue] == old(ghost.chansent[queue]) + 1 ==>
+//@       lastsent(queue).Error == core.ErrRequestEntityTooLarge
+//@   ensures [refusal_under_the_request_index] ghost.chansent[queue] == old(ghost.chansent[queue]) + 1 ==> lastsent(queue).Index == index
+//@   ensures [refused_only_when_too_large] ghost.chansent[queue] == old(ghost.chansent[queue]) + 1 ==> len(body) > h.Service.MaxRequestLength
+//@   ensures [at_most_one_refusal] ghost.chansent[queue] <= old(ghost.chansent[queue]) + 1
+
+// send (server): one binary message per response: header(index [| error bit]) then the body.
+//@ func (*Handler).send
+//@   prop C12 C13 C11 C09
+//@   nopanic
+//@   havoc
+//@   modifies ghost.ws_wlen, ghost.ws_w[*], ghost.ws_msgs, ghost.chansent[*], ghost.chanlen[*], ghost.chanrecv[*]
+//@   requires h != nil
+//@   loop 1 ensures [one_message_per_response] ghost.ws_msgs == old(ghost.ws_msgs) + 1
+//@   loop 1 ensures [message_is_header_then_body] ghost.ws_wlen == 4 + len(body) && same(body, response.Body)
+//@   loop 1 ensures [header_carries_the_response_index] 0 <= response.Index && response.Index < 2147483648 ==>
+//@       (ghost.ws_w[0] % 128) * 16777216 + ghost.ws_w[1] * 65536 + ghost.ws_w[2] * 256 + ghost.ws_w[3] == response.Index && ghost.ws_w[0] < 128
+//@   loop 1 ensures [body_follows_unchanged] forall(i, 0, len(body), ghost.ws_w[4 + i] == body[i])
+
+//@ rule goroutine_roots prop=C11
+//@ rule go_ctx (*Handler).Serve from=withcancel prop=C11,C10
+//@ rule go_ctx (*Handler).receive from=param prop=C11,C10
+
+//@ func (*Handler).Serve
+//@   prop C11
+//@   nopanic
+//@   havoc
+//@   modifies ghost.*
+//@   requires h != nil && h.Service != nil
+//@   stable h.Handler.Service
+
+// ---- client side ---------------------------------------------------------------------------
+
+//@ guarded conn.results by lock
+
+//@ func (*conn).store
+//@   prop C09 C10
+//@   nopanic
+//@   requires c != nil && c.results != nil
+//@   modifies c.results[*], ghost.held[addr(c.lock)]
+//@   ensures [registered] haskey(c.results, index) && c.results[index] == resultChan
+//@   ensures [lock_released] ghost.held[addr(c.lock)] == 0
+
+//@ func (*conn).delete
+//@   prop C09 C10
+//@   nopanic
+//@   requires c != nil
+//@   modifies c.results[*], ghost.held[addr(c.lock)]
+//@   ensures [unregistered] !haskey(c.results, index)
+//@   ensures [lock_released] ghost.held[addr(c.lock)] == 0
+
+//@ func (*conn).loadAndDelete
+//@   prop C09 C10
+//@   nopanic
+//@   requires c != nil
+//@   modifies c.results[*], ghost.held[addr(c.lock)]
+//@   ensures [found_iff_registered] loaded == old(haskey(c.results, index))
+//@   ensures [returns_the_registered_channel] loaded ==> resultChan == old(c.results[index])
+//@   ensures [entry_removed] !haskey(c.results, index)
+//@   ensures [lock_released] ghost.held[addr(c.lock)] == 0
+
+//@ func (*conn).send
+//@   prop C12 C09
+//@   nopanic
+//@   requires c != nil
+//@   modifies ghost.ws_wlen, ghost.ws_w[*], ghost.ws_msgs
+//@   ensures [one_message] result == nil ==> ghost.ws_msgs == old(ghost.ws_msgs) + 1 && ghost.ws_wlen == 4 + len(request.Body)
+//@   ensures [header_carries_index] result == nil && 0 <= request.Index && request.Index < 2147483648 ==>
+//@       (ghost.ws_w[0] % 128) * 16777216 + ghost.ws_w[1] * 65536 + ghost.ws_w[2] * 256 + ghost.ws_w[3] == request.Index && ghost.ws_w[0] < 128
+//@   ensures [body_follows_unchanged] result == nil ==> forall(i, 0, len(request.Body), ghost.ws_w[4 + i] == request.Body[i])
+
+// conn.receive: a binary message of at least 4 bytes; its rest goes, unchanged, to the caller
+// registered under the header's index; shorter messages and error-flagged ones are errors.
+//@ func (*conn).receive
+//@   prop C12 C09 C11
+//@   nopanic
+//@   requires c != nil
+//@   modifies ghost.ws_cur, c.results[*], ghost.held[addr(c.lock)], ghost.chansent[*], ghost.chanlen[*]
+//@   ensures [delivered_to_the_registered_caller_only] err == nil && messageType == 2 && loaded ==> resultChan == old(c.results[index]) &&
+//@       ghost.chansent[resultChan] == old(ghost.chansent[resultChan]) + 1
+//@   ensures [delivers_exactly_the_rest_of_the_message] err == nil && messageType == 2 && loaded ==> lastsent(resultChan).Index == index && lastsent(resultChan).Error == nil &&
+//@       len(ghost.ws_cur) >= 4 && arr(lastsent(resultChan).Body) == arr(ghost.ws_cur) &&
+//@       off(lastsent(resultChan).Body) == off(ghost.ws_cur) + 4 && len(lastsent(resultChan).Body) == len(ghost.ws_cur) - 4
+//@   ensures [index_is_the_header_index] err == nil && messageType == 2 && loaded ==>
+//@       index == (ghost.ws_cur[0] % 128) * 16777216 + ghost.ws_cur[1] * 65536 + ghost.ws_cur[2] * 256 + ghost.ws_cur[3] && ghost.ws_cur[0] < 128
+
+//@ rule select_arms (*conn).Transport done=1 recv=resultChan prop=C10
+
+//@ func (*conn).Transport
+//@   prop C09 C10
+//@   nopanic
+//@   requires c != nil && c.results != nil
+//@   modifies c.counter, c.results[*], ghost.held[addr(c.lock)], ghost.chansent[*], ghost.chanlen[*], ghost.chanrecv[*]
+//@   ensures [index_is_31_bit] 0 <= index && index < 2147483648
+//@   ensures [gave_up_leaves_no_entry] err != nil && ghost.chanrecv[resultChan] == 0 ==> !haskey(c.results, index)
+
+//@ type CleanFunc(index, resultChan)
+//@   nopanic
+//@   havoc
+//@   modifies ghost.*
+
+//@ func (*conn).rangeAndClean
+//@   prop C11 C10 C09
+//@   nopanic
+//@   havoc
+//@   modifies ghost.*
+//@   flag fn.f=github.com/hprose/hprose-golang/v3/rpc/websocket::CleanFunc
+//@   requires c != nil
+//@   loop 1 invariant ghost.held[addr(c.lock)] == 1
+//@   ensures [lock_released] ghost.held[addr(c.lock)] == 0
+//@   ensures [no_pending_entry_left] len(c.results) == 0
+
+//@ func (*conn).Close
+//@   prop C11 C10
+//@   nopanic
+//@   havoc
+//@   modifies ghost.*
+//@   requires c != nil
+
+//@ func (*conn).Exit
+//@   prop C11 C10
+//@   nopanic
+//@   havoc
+//@   modifies ghost.*
+//@   flag fn.onExit=github.com/hprose/hprose-golang/v3/rpc/websocket::Callback
+//@   requires c != nil
+
+//@ func (*conn).Send
+//@   prop C11 C10
+//@   nopanic
+//@   havoc
+//@   modifies ghost.*
+//@   flag fn.onExit=github.com/hprose/hprose-golang/v3/rpc/websocket::Callback
+//@   requires c != nil
+
+//@ func (*conn).Receive
+//@   prop C11 C10
+//@   nopanic
+//@   havoc
+//@   modifies ghost.*
+//@   flag fn.onExit=github.com/hprose/hprose-golang/v3/rpc/websocket::Callback
+//@   requires c != nil
